@@ -34,10 +34,23 @@ RULE = ('1-6 orders of 18 placement kinds (inside, straddling, outside before/af
         'capacities and prices as floats (eighths), whole numbers given as Python ints, whole floats or entry-wise mixed (about 30% of the cases all ints in both columns, half of those on a grid '
         'drawn from the 15min/30min and main-time-unit d/min combinations and half with wacc > 0, so that whole numbers meet fractional discounted durations); orders as dict of lists / tuples / numpy arrays (int64, float64, object) / lists of numpy scalars / Series, '
         'or as DataFrame with int64 / float64 / object columns; 15 grids incl. MS and DST days, 5 zones, wacc, NaN/length malformations; '
-        'half of the cases embedded in a portfolio (market, sometimes storage) and optimised; non-trivial = some order executed / covering a step; distinct by case hash')
-ASSUMPTIONS = ['independent reference LP solved with scipy linprog (full execution: enumeration of 0/1 patterns, one LP each)', 'tolerance 1e-9 where the implementation computes with non-dyadic numbers']
+        'half of the cases embedded in a portfolio (market, sometimes storage) and optimised; non-trivial = some order executed / covering a step; distinct by case hash. '
+        'Stream `books` (comp/obseq.py, 240 cases quick): 1-3 order books (own order numbering from 0, names drawn from a pool, columns as lists / numpy arrays / DataFrame, own wacc and '
+        'full_exec each) in ONE portfolio on one or two nodes (two market places at one node, one book per node, random), a market contract per node, sometimes a fixed load and a '
+        'one-directional link between the nodes, assets in shuffled order; 1-4 stages on the SAME asset and portfolio objects: before each later stage 1-2 edits drawn from '
+        '{main time unit of the grid with start/end/frequency unchanged, order list of a book replaced, wacc of a book, full_exec of a book, price arrays, time zone of the grid, '
+        'another horizon, new Portfolio object from the same assets in another order, costs_only set-up of one book alone, nothing}, the grid object reused or built anew; '
+        'every stage is judged per book: rows of the special table = orders with a step in the horizon, fractions in [0,1] / {0,1}, dispatch column = sum reported fraction x capacity x '
+        'step length, cash flow = - sum reported fraction x capacity x price x discounted covered duration, optimum = independent LP with one execution variable per order of every book; '
+        'each book\'s own problem of each stage is also compared with the model\'s builder')
+ASSUMPTIONS = ['independent reference LP solved with scipy linprog (full execution: enumeration of 0/1 patterns, one LP each)', 'tolerance 1e-9 where the implementation computes with non-dyadic numbers',
+               'stream `books`: step lengths, discount factors and covers of the reference are computed from the description of the stage\'s grid (date_range of start/end/frequency in the zone, '
+               'seconds per main time unit), not read from grid or asset objects; parameters of an existing order book are changed by assigning its attributes orders / wacc / full_exec '
+               '(the set-up reads them at every call); at most 6 orders in full-execution books per case (pattern enumeration)']
 EXPLANATION = ('theorems about the model of the OrderBook builder and the order read-out; correspondence; oracles on the real code incl. an independent per-order formulation and the inertness metamorphic test; '
-               'the model and the oracles take the exact rational values of the orders, whatever the numeric type and container in which the implementation receives them')
+               'the model and the oracles take the exact rational values of the orders, whatever the numeric type and container in which the implementation receives them; '
+               'stream `books`: the statement of C20 evaluated per order book of a portfolio with several books, and again after every change of the same objects '
+               '(a set-up must depend on the present orders, wacc, full_exec and grid only, never on an earlier set-up), against the independent per-order formulation of the whole portfolio')
 
 
 def scenarios(seed, tier):
